@@ -185,6 +185,8 @@ def rule_d(ctx):
     c01.rule_g(ctx)
 
 
+WITNESS = ['c01']  # doctest filters in /verif/witness (thorough tier)
+
 RULES = [
     ("C15.d", "the written times are monotone: time writes under the queue lock, deadlines > now, step_until target >= now", rule_d),
     ("C15.a", "seqlock protocol shape and ordering floors", rule_a),
